@@ -50,6 +50,21 @@ ASSUMPTIONS = [
 
 # N2 has the orbital count of CH4/NH4+ (8) with another heavy/hydrogen split: the pack/unpack fast path must not merge them
 MOLS = ["CH4", "H2O", "OH-", "NH4+", "H2CO", "CH3", "N2"]
+# molecules of the open-shell padding lattice E only (kept out of the shared alphabet): radical anions, whose singly
+# occupied level lies above 0 eV, i.e. above the value an unshifted padding orbital would have
+LOCAL = {
+    "H2O-": dict(M.MOLS["H2O"], charge=-1, mult=2),
+    "NH3-": dict(M.MOLS["NH3"], charge=-1, mult=2),
+}
+
+
+def _m(n):
+    return LOCAL[n] if n in LOCAL else M.MOLS[n]
+
+
+def _get(n):
+    m = _m(n)
+    return {"species": list(m["species"]), "coords": m["coords"].copy(), "charge": m["charge"], "mult": m["mult"], "name": n}
 KSA = [3, {"max_rank": 2, "err_threshold": 0.0, "T_el": 1500}]
 SOLVERS = {
     "fixed0": [0, 0.0],
@@ -93,7 +108,7 @@ def _geom(names, seed, displaced=False):
     R = M.generic_rot(seed)
     out = []
     for j, n in enumerate(names):
-        m = M.apply(M.get(n), R)
+        m = M.apply(_get(n), R)
         if displaced:
             k = np.arange(len(m["species"]), dtype=float)[:, None]
             ph = np.array([[1.1, 2.3, 3.7]]) * (k + 1.0) + 0.9 * seed + 0.5 * j
@@ -103,7 +118,7 @@ def _geom(names, seed, displaced=False):
 
 
 def _uhf(names):
-    return any(M.MOLS[n]["mult"] != 1 for n in names)
+    return any(_m(n)["mult"] != 1 for n in names)
 
 
 def _params(case):
@@ -227,7 +242,7 @@ def judge(case, out):
 
 
 def _batch_facts(names):
-    mols = [M.MOLS[n] for n in names]
+    mols = [_m(n) for n in names]
     norb = [sum(4 if z > 1 else 1 for z in m["species"]) for m in mols]
     nmax = max(norb)
     apo = max([nmax - no for m, no in zip(mols, norb) if m["charge"] < 0] or [0])
@@ -314,6 +329,22 @@ def _lattice(tier, seed):
                 for x in (None, 1e-5):
                     for e in (1e-6, 1e-10):
                         add("C", meth, b, s, x, e, "default", 1000)
+    # D: every iteration cap from 6 up to past convergence: somewhere in the sweep the cap falls between the iteration
+    #    counts of the two molecules, so one is frozen as converged while the other runs into the cap
+    capsD = range(6, 31) if quick else range(4, 61)
+    for b in (("CH4", "H2O"), ("H2CO", "OH-")) + (() if quick else (("CH3", "H2O"), ("N2", "H2CO", "NH4+"))):
+        for s in ("fixed0.3", "adaptive", "pulay", "ksa") if quick else tuple(SOLVERS):
+            for e in (1e-6,) if quick else (1e-4, 1e-6, 1e-8):
+                for cap in capsD:
+                    add("D", "AM1", b, s, None, e, "default", cap)
+    # E: open-shell batches whose padded member is an anion / radical anion, in every position
+    bE = [("SO2", "H2O-"), ("H2O-", "SO2"), ("H2CO", "H2O-"), ("H2CO", "NH3-"), ("SO2", "CH3", "OH-"), ("H2CO", "H2O-", "OH-")]
+    if not quick:
+        bE += [("NH3-", "H2CO"), ("SO2", "NH3-", "H2O-"), ("CH3", "H2O-"), ("H2O-", "H2CO", "NH3-"), ("SO2", "OH-", "H2O-")]
+    for b in bE:
+        for s in ("fixed0.3", "adaptive", "ksa") if quick else tuple(SOLVERS):
+            for e in (1e-6, 1e-10) if quick else EPS:
+                add("E", "AM1", b, s, None, e, "default", 1000)
     # adjacent cases share the batch (neighbour-density cache)
     cases.sort(key=lambda c: (c["init"] == "default", c["method"], c["batch"]))
     return cases
@@ -395,7 +426,7 @@ def _evaluate(chk, case, out, stats):
         mol = case["batch"][i]
         r = out["res"][i]
         chk.violation(
-            _desc(case, "residual", residual=name, mol=mol, pos=i, mol_charge=M.MOLS[mol]["charge"], mol_pad_orbitals=r["npad"] * 4,
+            _desc(case, "residual", residual=name, mol=mol, pos=i, mol_charge=_m(mol)["charge"], mol_pad_orbitals=r["npad"] * 4,
                   ratio=(v / t if t > 0 else float("inf"))),
             f"{k}: molecule {i} ({mol}) reported converged but {name} = {v:.3e} > {t:.3e}", replay=case,
         )  # fmt: skip
